@@ -46,6 +46,8 @@ const DEFAULT_CONFIG_EXTENSION: &str = "yaml";
 /// How long appender tasks block waiting for a message before re-checking
 /// the shutdown signal.
 const WRITER_RECV_TIMEOUT: Duration = Duration::from_millis(50);
+/// Upper bound for waiting on in-flight producers during the final drain at shutdown.
+const FINAL_DRAIN_TIMEOUT: Duration = Duration::from_secs(2);
 /// Under sustained load, flush at least this often so a crash can't lose
 /// more than this window of buffered output.
 const MAX_FLUSH_INTERVAL: Duration = Duration::from_millis(250);
@@ -476,8 +478,23 @@ fn run_byte_appender_writer(
 
   // --- Final Flush on Shutdown ---
   // Drain any messages that arrived just before shutdown, then flush.
-  while let Ok(bytes) = rx.try_recv() {
-    write_one(&mut *writer, &bytes, &mut is_dirty, appender_name, error_tx);
+  // `try_recv` reports `Empty` not only for an empty channel but also while a
+  // producer has claimed the head slot and not published it yet; stopping there
+  // would drop that event and every accepted event queued behind it. Keep
+  // draining until the channel is really empty (or disconnected), bounded by a
+  // deadline so a stalled producer cannot hold up shutdown.
+  let drain_deadline = Instant::now() + FINAL_DRAIN_TIMEOUT;
+  loop {
+    match rx.try_recv() {
+      Ok(bytes) => write_one(&mut *writer, &bytes, &mut is_dirty, appender_name, error_tx),
+      Err(fibre::TryRecvError::Disconnected) => break,
+      Err(fibre::TryRecvError::Empty) => {
+        if rx.is_empty() || Instant::now() >= drain_deadline {
+          break;
+        }
+        std::thread::yield_now();
+      }
+    }
   }
   if is_dirty {
     flush(
